@@ -174,7 +174,7 @@ class SysSim(Engine):
             ops.append(self._gen_check(rng, world))
             if rng.chance(0.75):
                 ops.append({"op": "fault", "kind": rng.weighted([("delta_big", 3), ("delta_small", 3), ("delta_just_above", 6), ("delta_0p2", 1), ("delta_1p5", 1), ("delta_4", 1),
-                                                  ("nan", 2), ("neg_big", 2), ("neg_small", 1), ("inf_pair", 1)]),
+                                                  ("nan", 2), ("neg_big", 2), ("neg_small", 1), ("inf_pair", 1), ("neg_pair", 2)]),
                             "arr": rng.randint(0, 50), "role": rng.choice(["flow", "flow", "inflow", "outflow"]), "entry": rng.randint(0, 10 ** 6),
                             "sign": rng.choice([1, -1])})
                 if rng.chance(0.1):
@@ -597,6 +597,22 @@ class SysSim(Engine):
             tol = ref_default_tolerance(sys_)
             scale = max(tol, 100 * EPS)
             fk = op["kind"]
+            if fk == "neg_pair":
+                # two neighbouring flows of the system get an entry far below zero at once: both must be flagged
+                names_ = st.flow_names
+                if len(names_) < 2:
+                    return
+                j = op["arr"] % (len(names_) - 1)
+                for nm in (names_[j], names_[j + 1]):
+                    a_ = sys_.flows[nm]
+                    if a_.values.size == 0:
+                        continue
+                    idx_ = np.unravel_index(op["entry"] % a_.values.size, a_.values.shape) if a_.values.shape else ()
+                    st.undo.append((a_, idx_, float(a_.values[idx_])))
+                    a_.values[idx_] = -max(25.0, 4 * scale) if op["sign"] < 0 else np.nan   # ... or a NaN each
+                self._fault(st, "conservation_neg_pair_flow" if op["sign"] < 0 else "conservation_nan_pair_flow")
+                self._update_levels(st)
+                return
             if fk == "inf_pair":
                 # unbounded entries are values like any other: +inf and -inf in one flow.  The default tolerance is then infinite and
                 # no entry lies below minus infinity, so check_flows has nothing to flag there; the balance itself is not judged
